@@ -208,6 +208,46 @@ def check_reuse(ca, fd, down, case, labels):
                         "second delineation")
 
 
+def check_two_objects(g, fd, down, case, outlet, labels):
+    """Two Catchment objects on the same flow grid, a river traced in
+    between, all with the same buffer size: what the first object reports
+    after the later calls is still the area of its own outlet."""
+    n = fd.size
+    if G.on_cycle(down, outlet) or G.on_cycle(down, case["start"]):
+        return
+    N = 4 * n + 8
+    a_obj = Catchment("first", g)
+    a_obj.delineate_area(outlet, None, nval=N)
+    first = [int(x) for x in a_obj.idxcells_area]
+    b_obj = Catchment("second", g)
+    b_obj.delineate_area(case["start"], None, nval=N)
+    delineate_river(g, case["start"], nval=N)
+    again = [int(x) for x in a_obj.idxcells_area]
+    m = G.area_model(down, outlet, set())
+    if set(first) != m or again != first:
+        raise Violation(
+            f"catchment of outlet {outlet} reports the area {again} after "
+            f"another catchment (outlet {case['start']}) and a river were "
+            f"delineated with the same buffer size; it reported {first} "
+            f"before, upstream area {sorted(m)}; grid {fd.tolist()}")
+    mb = G.area_model(down, case["start"], set())
+    if set(int(x) for x in b_obj.idxcells_area) != mb:
+        raise Violation("second catchment's area wrong after the river trace")
+    if len(m) > 1:
+        try:
+            a_obj.compute_flowpathlengths()
+            cells = set(int(c) for c in np.asarray(
+                a_obj.flowpathlengths)[:, 0])
+        except Exception as e:
+            raise Violation(f"compute_flowpathlengths on the first catchment "
+                            f"raised {type(e).__name__}: {e}")
+        if not cells <= m:
+            raise Violation(
+                f"flow path table of the first catchment lists cells "
+                f"{sorted(cells - m)} outside its area {sorted(m)}")
+    labels.add("two-catchments+river-same-buffer-size")
+
+
 def check_river(g, fd, down, start, nval, labels):
     nr, nc = fd.shape
     try:
@@ -496,6 +536,7 @@ def random_oracle(case):
         check_area(ca, fd, down, outlet, inlets + inlets[:1], labels)
         labels.add("inlets-listed-twice")
     check_disguised_inlets(fd, case, outlet, m0, labels)
+    check_two_objects(g, fd, down, case, outlet, labels)
     check_reuse(ca, fd, down, case, labels)
     check_river(g, fd, down, case["start"], case["nval"], labels)
     if any(G.chains(down)[1]):
